@@ -457,6 +457,11 @@ def install(extra=None):
                         p = LookupProxy(val)
                         _PROXIES[id(val)] = p
                     _set(mod, name, p)
+    # module-level byte buffers (a reused bytearray) get a proxy-capable stand-in, fresh on every path
+    for mname, mod in mods.items():
+        for name, val in list(vars(mod).items()):
+            if type(val) is builtins.bytearray and not name.startswith('__'):
+                _set(mod, name, SymByteArray(_SNAP_BUFFERS.get((mname, name), bytes(val))))
     for mname, shadows in BUILTIN_SHADOWS.items():
         mod = mods.get(mname)
         if mod is None:
@@ -479,11 +484,17 @@ def uninstall():
 
 
 _SNAPSHOT = {}
+_SNAP_BUFFERS = {}
 
 
 def snapshot_globals():
     """Remember every simple module-level global of mido.* (path isolation)."""
     _SNAPSHOT.clear()
+    _SNAP_BUFFERS.clear()
+    for mname, mod in mido_modules().items():
+        for name, val in vars(mod).items():
+            if type(val) is builtins.bytearray and not name.startswith('__'):
+                _SNAP_BUFFERS[(mname, name)] = bytes(val)
     for mname, mod in mido_modules().items():
         for name, val in vars(mod).items():
             if name.startswith('__'):
@@ -498,6 +509,11 @@ def restore_globals():
         mod = mods.get(mname)
         if mod is not None and vars(mod).get(name, val) is not val:
             vars(mod)[name] = val
+    for (mname, name), content in _SNAP_BUFFERS.items():
+        mod = mods.get(mname)
+        buf = vars(mod).get(name) if mod is not None else None
+        if type(buf) is builtins.bytearray and bytes(buf) != content:
+            buf[:] = content
 
 
 # --------------------------------------------------------------------------
